@@ -355,7 +355,20 @@ func work(w *mon.W) {
 				ck.SetMaxAge(1 + r.Intn(100000))
 			}
 			if r.Bool() {
-				ck.SetExpire(time.Unix(int64(1+r.Intn(2000000000)), 0))
+				// all expiry times: ordinary, the epoch itself (the usual "delete" value),
+				// before the epoch, far future
+				switch r.Intn(6) {
+				case 0:
+					ck.SetExpire(time.Unix(0, 0))
+				case 1:
+					ck.SetExpire(time.Unix(-int64(1+r.Intn(2000000000)), 0))
+				case 2:
+					ck.SetExpire(time.Unix(int64(r.Intn(3)), 0))
+				case 3:
+					ck.SetExpire(time.Date(9000+r.Intn(900), 1, 1, 0, 0, 0, 0, time.UTC))
+				default:
+					ck.SetExpire(time.Unix(int64(1+r.Intn(2000000000)), 0))
+				}
 			}
 			ck.SetHTTPOnly(r.Bool())
 			ck.SetSecure(r.Bool())
